@@ -305,6 +305,60 @@ func ToolItems(r *rand.Rand, p Payload) ([]*Item, error) {
 	return out, nil
 }
 
+// SmallDictItems encodes a long periodic payload (maximum-length matches at
+// every alignment) with a 4 KiB LZMA dictionary, as .lzma and as .xz: the
+// decoder's dictionary ring wraps every 4096 bytes, so the seams of its
+// history handling are crossed thousands of times.
+func SmallDictItems(r *rand.Rand) ([]*Item, error) {
+	xz := findTool("xz")
+	if xz == "" {
+		return nil, fmt.Errorf("xz tool not found")
+	}
+	var b []byte
+	if r.Intn(2) == 0 {
+		n := 400000 + r.Intn(1200000)
+		period := 1 + r.Intn(300)
+		unit := make([]byte, period)
+		r.Read(unit)
+		for len(b) < n {
+			b = append(b, unit...)
+			if r.Intn(40) == 0 { // an occasional literal shifts the alignment of the following matches
+				b = append(b, byte(r.Intn(256)))
+			}
+		}
+		b = b[:n]
+	} else {
+		// incompressible data except that, in every 4096-byte stretch, the 273
+		// bytes (the maximum match length) starting at the LAST ring slot, or one
+		// of its neighbours, re-appear a few hundred to a few thousand bytes later,
+		// followed by a fresh literal: maximum-length matches whose source
+		// straddles the wrap-around point of the 4 KiB dictionary ring
+		n := 4096 * (8 + r.Intn(24))
+		b = make([]byte, n)
+		r.Read(b)
+		for k := 1; 4096*(k+1) < n; k++ {
+			src := 4096*k - 1 - r.Intn(3)*r.Intn(2) // mostly exactly the last slot
+			g := 100 + r.Intn(3200)
+			q := src + 273 + g
+			if q+274 < 4096*(k+1)-4 {
+				copy(b[q:q+273], b[src:src+273])
+			}
+		}
+	}
+	var out []*Item
+	enc, err := pipeTool(xz, []string{"-T1", "--format=lzma", "--lzma1=dict=4KiB,nice=273", "-c"}, b)
+	if err != nil {
+		return nil, err
+	}
+	out = append(out, &Item{Kind: "lzma", Enc: enc, Payload: b, Setting: "lzma-dict4k", PClass: "periodic", Valid: true})
+	enc2, err := pipeTool(xz, []string{"-T1", "--format=xz", "--lzma2=dict=4KiB,nice=273", "--check=crc32", "-c"}, b)
+	if err != nil {
+		return nil, err
+	}
+	out = append(out, &Item{Kind: "xz", Enc: enc2, Payload: b, Setting: "xz-dict4k", PClass: "periodic", Valid: true})
+	return out, nil
+}
+
 // HashItems: the payload itself is the input of each hasher.
 func HashItems(p Payload) []*Item {
 	var out []*Item
